@@ -270,6 +270,13 @@ def opEndDates (req : J) : J :=
             | some l => J.arr (l.map J.ofNat)
             | none => J.null)]
 
+/-- op `weekruns`: the 7 written day names of a weekly schedule → runs (name, count) -/
+def opWeekRuns (req : J) : J :=
+  let days : List String := match req.get? "days" with
+    | some (J.arr l) => l.filterMap (fun x => match x with | J.str s => some s | _ => none)
+    | _ => []
+  J.obj [("runs", J.arr ((weekRuns days).map (fun r => J.arr [J.str r.1, J.ofNat r.2])))]
+
 /-- op `edgevert`: `Polygon::edge_vertices(name)` on an outline of `n` vertices -/
 def opEdgeVert (req : J) : J :=
   let name := match req.get? "name" with | some (J.str s) => s | _ => ""
@@ -558,6 +565,7 @@ def handle (line : String) : String :=
       | some (J.str "occupancy") => withModel req opOccupancy
       | some (J.str "enddates") => opEndDates req
       | some (J.str "edgevert") => opEdgeVert req
+      | some (J.str "weekruns") => opWeekRuns req
       | some (J.str "bdlblocks") => opBdlBlocks req
       | some (J.str "skelconvert") => opSkelConvert req
       | some (J.str "placement") => opPlacement req
